@@ -9,13 +9,23 @@ Open Scope Z_scope.
 Definition small (b : bytes) : Prop := Z.of_nat (length b) < 4294967296.
 
 (* ================================================================== Python slices on exact lengths *)
+Lemma clamp_exact b r : clamp (Z.of_nat (length b)) (b ++ r) = length b.
+Proof. unfold clamp. rewrite app_length. lia. Qed.
 Lemma py_take_exact b r : py_take (Z.of_nat (length b)) (b ++ r) = b.
 Proof.
-  unfold py_take. destruct (Z.of_nat (length b) <? 0) eqn:E; [lia|]. rewrite Nat2Z.id. apply firstn_app_exact. reflexivity.
+  unfold py_take. destruct (Z.of_nat (length b) <? 0) eqn:E; [lia|]. rewrite clamp_exact. apply firstn_app_exact. reflexivity.
 Qed.
 Lemma py_drop_exact b r : py_drop (Z.of_nat (length b)) (b ++ r) = r.
 Proof.
-  unfold py_drop. destruct (Z.of_nat (length b) <? 0) eqn:E; [lia|]. rewrite Nat2Z.id. apply skipn_app_exact. reflexivity.
+  unfold py_drop. destruct (Z.of_nat (length b) <? 0) eqn:E; [lia|]. rewrite clamp_exact. apply skipn_app_exact. reflexivity.
+Qed.
+(* clamping does not change the slice *)
+Lemma py_take_spec k l : 0 <= k -> py_take k l = firstn (Z.to_nat k) l.
+Proof.
+  intro H. unfold py_take, clamp. destruct (k <? 0) eqn:E; [lia|].
+  destruct (Z.le_ge_cases k (Z.of_nat (length l))) as [L|G].
+  - rewrite Z.min_l by lia. reflexivity.
+  - rewrite Z.min_r by lia. rewrite Nat2Z.id, firstn_all. symmetry. apply firstn_all2. lia.
 Qed.
 
 (* ================================================================== literal data body *)
